@@ -84,6 +84,18 @@ def cache_header(text):
             'def cacheLenBytesR : Nat := %d' % (width[mw.group(1)], width[mr.group(1)]))
 
 
+def dtor_drains(text):
+    """does ~CachedInputSplit finish the first pass (pull the rest through the tee) before closing the file?"""
+    body = _strip(_body(text, r'virtual ~CachedInputSplit\(void\)\s*\{'))
+    cut = body.find('delete iter_preproc_')
+    if cut < 0:
+        raise ValueError('destructor no longer deletes iter_preproc_')
+    head = body[:cut]
+    drains = re.search(r'while \(iter_preproc_->Next\(&tmp_chunk_\)\) \{\s*iter_preproc_->Recycle\(&tmp_chunk_\);', head) is not None
+    return ('-- ~CachedInputSplit drains the first-pass iterator into the cache file before it closes it\n'
+            'def dtorDrains : Bool := %s' % ('true' if drains else 'false'))
+
+
 def cache_suffix(text):
     body = _strip(_body(text, r'explicit URISpec\([^)]*\)\s*\{'))
     m = re.search(r'if \((num_parts != 1)\) \{\s*os << "([^"]*)" << num_parts << "([^"]*)" << part_index;', body)
@@ -119,5 +131,6 @@ ITEMS = [
     {'name': 'cacheLenBytes', 'file': CI, 'custom': cache_header},
     {'name': 'resetOnCaller', 'file': TI, 'custom': reset_on_caller},
     {'name': 'bfOrder', 'file': TI, 'custom': bf_order},
+    {'name': 'dtorDrains', 'file': CI, 'custom': dtor_drains},
     {'name': 'cacheSuffix', 'file': US, 'custom': cache_suffix},
 ]
